@@ -22,7 +22,8 @@ fn main() {
             continue;
         }
         let skip_log = defs.len() % 2 == 0;
-        defs.push(SubjectDef { family: "core".into(), def, skip_log, has_value: vec![], error_cb: false });
+        let twin = { let mut t = def.clone(); t.utf8 = false; def.utf8 && prepare(&t).is_ok() };
+        defs.push(SubjectDef { family: "core".into(), def, skip_log, has_value: vec![], error_cb: false, twin });
     }
     defs.extend(stress_defs().into_iter().filter(|d| d.family == "stress"));
     for d in defs.iter_mut() {
